@@ -6,17 +6,20 @@ VERIF = os.path.dirname(os.path.dirname(os.path.abspath(__file__)))
 sys.path.insert(0, VERIF)
 from vlib import gramgen, common as C
 WANT = int(sys.argv[1]) if len(sys.argv) > 1 else 12
+# second batch: "rich" shapes (skip-until, lookahead-dependent alternatives, PEEK slices, lookahead-only cycles, adjacent strings)
+RICH = len(sys.argv) > 2 and sys.argv[2] == "rich"
+FIRST = 13 if RICH else 1
 gensim = C.require_build("gensim")
 os.makedirs(os.path.join(VERIF, "corpus", "gen"), exist_ok=True)
 root = os.path.join(VERIF, "build", "gensim-roots", "root0")
 os.makedirs(root, exist_ok=True)
 def esc(s): return s.replace('\\', '\\\\').replace('\n', '\\n').replace('\r', '\\r').replace('\t', '\\t')
 kept = []
-seed = 5000
+seed = 7000 if RICH else 5000
 index_lines = []
 while len(kept) < WANT:
     seed += 1
-    g = gramgen.build(seed)
+    g = gramgen.build(seed, rich=RICH)
     if len(g.rules) < 4:
         continue
     text = gramgen.render(g)
@@ -30,8 +33,8 @@ while len(kept) < WANT:
             ok = False
     if not ok:
         continue
-    name = "g%02d" % (len(kept) + 1)
-    open(os.path.join(VERIF, "corpus", "gen", name + ".pest"), "w").write("// drawn from seed %d by vlib/gramgen.py (tools/make_gen_corpus.py)\n" % seed + text)
+    name = "g%02d" % (len(kept) + FIRST)
+    open(os.path.join(VERIF, "corpus", "gen", name + ".pest"), "w").write("// drawn from seed %d by vlib/gramgen.py (tools/make_gen_corpus.py%s)\n" % (seed, ", rich shapes" if RICH else "") + text)
     rng = C.SplitMix(seed * 7919)
     lines = []
     for (i, mod, doc, body) in g.rules:
@@ -50,6 +53,7 @@ while len(kept) < WANT:
     kept.append(seed)
 os.unlink("/tmp/mkgen-scn.json")
 idx = os.path.join(VERIF, "corpus", "index.txt")
-cur = [l for l in open(idx).read().splitlines() if not l.startswith("g0") and not l.startswith("g1")]
+names = {l.split("\t")[0] for l in index_lines}
+cur = [l for l in open(idx).read().splitlines() if l.split("\t")[0] not in names]
 open(idx, "w").write("\n".join(cur + index_lines) + "\n")
 print("kept seeds", kept)
